@@ -10,7 +10,13 @@ RULE = ('consumer probes whose parameters are bound (by config text) to value tr
         'sequences of length 1-5 in which the consumer mutates everything it received at every depth. Oracle: model walk of each Gin-supplied '
         'value tree -> exact multiset of (provider, observed scope) calls per consumer call, zero calls for caller-supplied parameters, fresh '
         'identities across calls, delivered structure; queries/config strings/next reception unchanged by consumer mutation. '
-        'distinct = (tree shape, reference kinds, ambient depth, override pattern, #calls)')
+        'Extension: providers are also classes (configurable / external_configurable / register with a registered method), referenced scoped and unscoped, '
+        'evaluated (also as dict keys) and unevaluated, with dotted scopes and module-qualified names; the providers own scoped bindings (s1/prov0.t, longest '
+        'prefix wins) show under which scope they ran; callers pass None / falsy values / gin.REQUIRED positionally and by keyword; the ambient scope comes '
+        'about through lists, nested strings, a/b strings, config_scope(None), get_configurable(\'a/b/cons\'); between calls: re-bound provider parameter, '
+        're-bound macro, finalize, a second parse; a provider raising an ordinary exception mid-container; unscoped @name is the registered configurable '
+        'object; operative_config_str() around the mutation; get_bindings(resolve_references=True) under the caller scope against the model. '
+        'distinct = (tree shape, reference kinds, ambient depth, override pattern, #calls, scoped provider bindings, ambient program, between-ops, caller values)')
 TIERS = {
     'quick': {'workers': 8, 'cases': 1000, 'timeout': 600},
     'thorough': {'workers': 16, 'cases': 15000, 'timeout': 3000},
@@ -20,6 +26,18 @@ REQUIRED_BUCKETS = ['ref:unevaluated', 'ref:evaluated', 'ref:scoped-evaluated', 
                     'override:positional', 'override:keyword', 'override:none', 'calls:3+', 'mutation:applied', 'delivered-fn-called',
                     'override:keyword-on-evaluated-ref', 'override:positional-on-evaluated-ref', 'history:scoped-reference-left-by-BaseException', 'parsed-inside-a-scope', 'override:keyword-on-varkw-parameter', 'special:target-reregistered', 'special:rebind-changes-only-the-scope']
 ORACLE_COUNTERS = ['oracle_evals', 'consumer_calls', 'provider_call_multisets_compared', 'mutation_snapshots_compared']
+# extension wave (audit gaps 1-8): every bucket below must be hit in every run
+REQUIRED_BUCKETS += ['provider:class-configurable', 'provider:class-external', 'provider:class-registered-with-method', 'ref:scoped-class-evaluated',
+                     'ref:scoped-class-unevaluated', 'ref:evaluated-as-dict-key', 'ref:dotted-scope', 'ref:module-qualified', 'graph:scoped-provider-binding-used',
+                     'override:None-on-evaluated-ref', 'override:falsy-on-evaluated-ref', 'override:REQUIRED-keyword-on-evaluated-ref',
+                     'override:REQUIRED-positional-on-evaluated-ref', 'snapshot:operative-config-around-mutation', 'between:rebind-graph', 'between:rebind-macro',
+                     'between:finalize', 'between:reparse', 'query:get_bindings-resolved', 'ambient-how:nested-str', 'ambient-how:slash-str', 'ambient-how:inside-other',
+                     'ambient-how:none-then', 'ambient-how:get_configurable', 'identity:unscoped-unevaluated-is-the-configurable',
+                     'history:evaluated-reference-raised-mid-container', 'history:call-after-raising-reference']
+ORACLE_COUNTERS += ['get_bindings_resolved_compared', 'operative_snapshots_compared', 'identity_checks']
+REF_SCOPES = ['s1', 's2', 'd.e']          # 'd.e': a scope name may contain dots
+CLS_PROVS = ['Prov3', 'Prov4', 'Prov5']   # classes: @gin.configurable, external_configurable, gin.register + a registered method
+P_OPSNAP = 0.12                           # share of mutating calls around which operative_config_str() is snapshotted (costly)
 _S = {}
 
 
@@ -40,9 +58,75 @@ def setup(ctx):
   def cons2(x=None, y=None):
     return (x, y)
   _S['cons2'] = cons2
+  _S['xprovs'], _S['xby_pid'] = {}, {}
+  if getattr(ctx, 'pid', None) == ID:   # c05/c07 reuse setup() for prov0..2 only: their registries stay as they were
+    _setup_ext()
+
+
+class _P:
+  pass
+
+
+def _setup_ext():
+  """Providers beyond plain functions: three classes (one per registration API, one of them with a registered method) and a
+  function that raises an ordinary exception while the harness asks it to."""
+  import itertools
+  import gin
+  xp = {}
+  for name, api in [('Prov3', 'configurable'), ('Prov4', 'external')]:
+    xp[name] = probes.build({'shape': 'init', 'api': api, 'name': name, 'module': 'c4', 'pos': [], 'dflt': [['t', 'dflt-t']],
+                             'varargs': False, 'kwonly': [], 'varkw': False})
+  # gin.register on a class that has a registered method: the scoped reference is then a subclass overriding the method
+  p5 = _P()
+  p5.pid, p5.name = 'c4p5', 'Prov5'
+  g = {'VF_rec': probes.RECORDER.rec, 'VF_PID': p5.pid, '__name__': 'vfprobes'}
+  exec('class Prov5:\n  """doc of Prov5"""\n  def __init__(self, t="dflt-t"):\n    self.rec = VF_rec(VF_PID, {"t": t})\n'  # pylint: disable=exec-used
+       '  def meth(self, u="dflt-u"):\n    return u\n', g)
+  p5.original = g['Prov5']
+  gin.register(module=None)(p5.original.__dict__['meth'])
+  gin.register('Prov5', module='c4')(p5.original)
+  p5.conf = gin.get_configurable(p5.original)
+  xp['Prov5'] = p5
+  r = _P()
+  r.pid, r.name = 'c4raiser', 'raiser'
+  ctr = itertools.count()
+
+  def raiser(t='dflt-t'):
+    probes.RECORDER.rec(r.pid, {'t': t})
+    n = next(ctr)                     # the n-th record of this provider belongs to its n-th run, raised or not
+    if _S.get('raise_now'):
+      raise ValueError('c4-raiser asked to raise')
+    return ['ret', r.pid, n]
+  r.original = raiser
+  r.conf = gin.configurable('raiser', module='c4')(raiser)
+  xp['raiser'] = r
+  _S['xprovs'] = xp
+  _S['xby_pid'] = {p.pid: n for n, p in xp.items()}
+
+
+def _pname(pid):
+  return _S['by_pid'].get(pid) or _S['xby_pid'].get(pid)
+
+
+def _prov(name):
+  return _S['provs'].get(name) or _S['xprovs'].get(name)
+
+
+def _base(name):
+  """'c4.prov0' (module-qualified, as written in a reference) -> 'prov0'."""
+  return name.rsplit('.', 1)[-1]
 
 
 # value trees: ['lit', v] | ['ref', prov, [scopes], evaluate] | ['macro', name] | ['list', items] | ['tuple', items] | ['dict', [[k, v]...]]
+def gen_ref(rng):
+  scopes = [rng.choice(REF_SCOPES) for _ in range(rng.choice([0, 0, 1, 2]))]
+  r = rng.random()
+  name = 'prov%d' % rng.randrange(3) if r < 0.66 else (rng.choice(CLS_PROVS) if r < 0.94 else 'raiser')
+  if rng.random() < 0.1:
+    name = 'c4.' + name            # module-qualified, as a config file written against a bigger code base would
+  return ['ref', name, scopes, rng.random() < 0.65]
+
+
 def gen_tree(rng, depth):
   r = rng.random()
   if depth <= 0 or r < 0.45:
@@ -50,8 +134,7 @@ def gen_tree(rng, depth):
     if k < 0.25:
       return ['lit', rng.choice([1, 'x', None, 2.5, [1, 2], {'a': [0]}, (3, [4])])]
     if k < 0.85:
-      scopes = [rng.choice(['s1', 's2']) for _ in range(rng.choice([0, 0, 1, 2]))]
-      return ['ref', 'prov%d' % rng.randrange(3), scopes, rng.random() < 0.65]
+      return gen_ref(rng)
     return ['macro', rng.choice(['m0', 'mm/m1'])]
   n = rng.choice([1, 2, 2, 3])
   if r < 0.65:
@@ -62,11 +145,19 @@ def gen_tree(rng, depth):
   used = set()
   for i in range(n):
     key = ['lit', 'k%d' % i]
-    if rng.random() < 0.25:
+    kr = rng.random()
+    if kr < 0.25:
       pn = 'prov%d' % rng.randrange(3)
       if pn not in used:  # distinct keys only: equal keys collapse in any dict
         used.add(pn)
         key = ['ref', pn, [rng.choice(['s1', 's2'])] if rng.random() < 0.4 else [], False]
+    elif kr < 0.4:
+      # an evaluated reference as a key: the provider's result must be hashable (an instance of a class provider); every evaluation is a new key
+      # (reference objects that are equal collapse when the dict is *parsed*, like any equal keys: one key per provider)
+      pn = rng.choice(CLS_PROVS)
+      if pn not in used:
+        used.add(pn)
+        key = ['ref', pn, [rng.choice(REF_SCOPES)] if rng.random() < 0.4 else [], True]
     items.append([key, gen_tree(rng, depth - 1)])
   return ['dict', items]
 
@@ -93,6 +184,19 @@ def tree_feats(t, depth=0, ctxk=None, out=None):
     out.add(('ref:scoped-' if t[2] else 'ref:') + ('evaluated' if t[3] else 'unevaluated'))
     if ctxk:
       out.add('ref:' + ctxk)
+    # (the features below only arise from this check's own generator: other checks' trees never contain these shapes)
+    if _base(t[1]) in CLS_PROVS:
+      out.add('provider:class-' + {'Prov3': 'configurable', 'Prov4': 'external', 'Prov5': 'registered-with-method'}[_base(t[1])])
+      if t[2]:
+        out.add('ref:scoped-class-' + ('evaluated' if t[3] else 'unevaluated'))
+    if ctxk == 'as-dict-key' and t[3]:
+      out.add('ref:evaluated-as-dict-key')
+    if any('.' in sc for sc in t[2]):
+      out.add('ref:dotted-scope')
+    if '.' in t[1]:
+      out.add('ref:module-qualified')
+    if _base(t[1]) == 'raiser' and t[3]:
+      out.add('ref:evaluated-raiser')
     if depth >= 3:
       out.add('ref:depth3')
   elif k == 'macro':
@@ -122,14 +226,21 @@ def iter_cases(ctx, rng, n):
     trees = {'p%d' % j: gen_tree(rng, rng.choice([0, 1, 2, 3])) for j in range(nparams)}
     if spec['varkw']:
       trees['x0'] = gen_tree(rng, rng.choice([0, 1, 2]))   # a parameter only **kwargs can take
-    graph = {'prov1': rng.choice([None, ['ref', 'prov0', [], True], ['ref', 'prov0', ['g1'], True]]),
-             'prov2': rng.choice([None, None, ['ref', 'prov1', [], True], ['ref', 'prov1', ['g2'], True], ['list', [['ref', 'prov0', [], True], ['ref', 'prov1', [], False]]]])}
-    macros = {'m0': rng.choice([['ref', 'prov0', [], True], ['ref', 'prov1', ['ms'], True], ['lit', [1, [2]]]]),
-              'mm/m1': rng.choice([['ref', 'prov2', [], True], ['list', [['ref', 'prov0', [], True]]]])}
+    raiser_case = rng.random() < 0.06
+    if raiser_case:
+      # an evaluated reference that raises an ordinary exception in the middle of a container, between two references that succeed
+      trees['p0'] = ['list', [gen_ref(rng)[:3] + [True], ['ref', 'raiser', [rng.choice(REF_SCOPES)] if rng.random() < 0.5 else [], True], gen_tree(rng, 1)]]
+    graph = {'prov0': rng.choice(G_PROV0), 'prov1': rng.choice(G_PROV1), 'prov2': rng.choice(G_PROV2)}
+    for cn in CLS_PROVS:
+      graph[cn] = rng.choice(G_CLS)
+    # bindings of the providers that are themselves scoped: which one a provider receives shows under which scope it really ran
+    sgraph = {k: v for k, v in SGRAPH.items() if rng.random() < 0.13}
+    macros = {'m0': rng.choice(G_M0), 'mm/m1': rng.choice(G_M1)}
     calls = []
-    for _ in range(rng.choice([1, 2, 3, 4, 5])):
+    bind_scope = rng.choice(['', '', 'a'])
+    for ci in range(rng.choice([1, 2, 3, 4, 5]) + (1 if raiser_case else 0)):
       ambient = [rng.choice(['a', 'b', 's1']) for _ in range(rng.choice([0, 0, 1, 2, 3]))]
-      over = {}
+      over, oval = {}, {}
       prefix = True
       for j in range(nparams):
         r = rng.random()
@@ -141,10 +252,41 @@ def iter_cases(ctx, rng, n):
             over['p%d' % j] = 'kw'
       if spec['varkw'] and rng.random() < 0.5:
         over['x0'] = 'kw'
-      calls.append({'ambient': ambient, 'over': over, 'mutate': rng.random() < 0.8, 'fn_scope': [rng.choice(['q', 'a'])] if rng.random() < 0.5 else [],
-                    'interrupted_scoped_call_before': rng.random() < 0.15})
-    yield {'spec': spec, 'trees': trees, 'graph': graph, 'macros': macros, 'calls': calls,
-           'bind_scope': rng.choice(['', '', 'a']), 'parse_scope': rng.choice([None, None, 'b', 'a/s1', 'zz'])}
+      for prm in over:
+        # what the caller passes: a truthy list, None, something falsy, or gin.REQUIRED (= "Gin, supply it")
+        oval[prm] = rng.choice(['list', 'list', 'list', 'none', 'none', 'zero', 'empty', 'required', 'required'])
+      before = None
+      if ci > 0 and rng.random() < 0.3:
+        k = rng.random()
+        if k < 0.3:
+          pn = rng.choice(['prov1', 'prov2'] + CLS_PROVS)
+          before = ['rebind-graph', pn, rng.choice([g for g in {'prov1': G_PROV1, 'prov2': G_PROV2}.get(pn, G_CLS) if g is not None]), rng.choice(['parse_config', 'bind_parameter'])]
+        elif k < 0.55:
+          mn = rng.choice(['m0', 'mm/m1'])
+          before = ['rebind-macro', mn, rng.choice(G_M0 if mn == 'm0' else G_M1)]
+        elif k < 0.8:
+          before = ['finalize']
+        else:
+          before = ['reparse']
+      calls.append({'ambient': ambient, 'over': over, 'oval': oval, 'mutate': rng.random() < 0.8, 'fn_scope': [rng.choice(['q', 'a'])] if rng.random() < 0.5 else [],
+                    'interrupted_scoped_call_before': rng.random() < 0.15, 'before': before,
+                    'how': rng.choice(['list', 'list', 'list', 'nested-str', 'slash-str', 'inside-other', 'none-then', 'get_configurable']),
+                    'opsnap': rng.random() < P_OPSNAP, 'gb': rng.random() < 0.2, 'raise': (raiser_case and ci == 0) or rng.random() < 0.1})
+    yield {'spec': spec, 'trees': trees, 'graph': graph, 'sgraph': sgraph, 'macros': macros, 'calls': calls,
+           'bind_scope': bind_scope, 'parse_scope': rng.choice([None, None, 'b', 'a/s1', 'zz'])}
+
+
+# provider graphs stay acyclic: prov0 < prov1, Prov3..5 < prov2
+G_PROV0 = [None, None, ['lit', ['p0-t', [0]]]]
+G_PROV1 = [None, ['ref', 'prov0', [], True], ['ref', 'prov0', ['g1'], True]]
+G_PROV2 = [None, None, ['ref', 'prov1', [], True], ['ref', 'prov1', ['g2'], True], ['list', [['ref', 'prov0', [], True], ['ref', 'prov1', [], False]]],
+           ['ref', 'Prov3', ['g2'], True], ['tuple', [['ref', 'Prov5', [], True], ['ref', 'c4.Prov4', ['s1'], False]]]]
+G_CLS = [None, None, None, None, None, ['ref', 'prov0', [], True], ['ref', 'prov0', ['g1'], True], ['lit', ['cls-t', [0]]]]
+G_M0 = [['ref', 'prov0', [], True], ['ref', 'prov1', ['ms'], True], ['lit', [1, [2]]]]
+G_M1 = [['ref', 'prov2', [], True], ['list', [['ref', 'prov0', [], True]]]]
+SGRAPH = {'g1/prov0': ['lit', ['g1-t']], 's1/prov0': ['lit', 's1-t'], 's1/s2/prov0': ['lit', ('s1s2-t', [1])], 'a/prov0': ['lit', 'a-t'],
+          'g2/prov1': ['ref', 'prov0', [], True], 's1/Prov3': ['ref', 'prov0', [], True], 's2/Prov4': ['lit', ['s2-t']], 's1/Prov5': ['lit', 's1-5'],
+          'q/prov0': ['lit', 'q-t'], 'm0/prov0': ['lit', ['m0-t']]}
 
 
 # ---- the model: walk a tree, produce the expected provider calls and the delivered shape
@@ -154,7 +296,7 @@ def model_eval(t, ambient, case, calls):
   if k == 'lit':
     return lit_shape(t[1])
   if k == 'ref':
-    name, scopes, ev = t[1], t[2], t[3]
+    name, scopes, ev = _base(t[1]), t[2], t[3]
     if not ev:
       return ('fn', name, tuple(scopes))
     return model_call(name, scopes or ambient, case, calls)
@@ -177,23 +319,39 @@ def lit_shape(v):
 def model_call(name, scope, case, calls):
   calls.append((name, tuple(scope)))
   g = case['graph'].get(name)
+  sg = case.get('sgraph')
+  if sg:
+    # bindings of the provider under the scope it runs in: every prefix of that scope contributes, the longest wins
+    for i in range(1, len(scope) + 1):
+      g2 = sg.get('/'.join(scope[:i]) + '/' + name)
+      if g2 is not None:
+        g = g2
   tshape = lit_shape('dflt-t') if g is None else model_eval(g, list(scope), case, calls)
   return ('prov', name, tshape)
+
+
+def _rec_of(v):
+  """The record of the provider run that produced `v` (a tagged list of a function provider, or an instance of a class provider)."""
+  if isinstance(v, list) and len(v) == 3 and v[0] == 'ret' and _pname(v[1]):
+    return _pname(v[1]), _match(v, None)
+  rec = getattr(v, 'rec', None) if not isinstance(v, type) else None
+  if isinstance(rec, probes.Rec) and rec.pid in _S['xby_pid']:
+    return _S['xby_pid'][rec.pid], rec
+  return None, None
 
 
 def shape_of(v, ctx, fn_scope, calls_seen):
   """Shape of a delivered value; delivered configurables are *called* (under fn_scope) to see what they are."""
   import gin
-  if isinstance(v, list) and len(v) == 3 and v[0] == 'ret' and v[1] in _S['by_pid']:
-    rec = _S['last_recs'].get(id(v))
-    name = _S['by_pid'][v[1]]
+  name, rec = _rec_of(v)
+  if name:
     t = rec.received['t'] if rec else None
     return ('prov', name, shape_of(t, ctx, fn_scope, calls_seen))
   if callable(v) and not isinstance(v, type) or (isinstance(v, type)):
     mark = probes.RECORDER.mark()
     try:
       with gin.config_scope(list(fn_scope)):
-        v()
+        res = v()
     except Exception as e:  # pylint: disable=broad-except
       return ('fn-raised', repr(e))
     recs = probes.RECORDER.since(mark)
@@ -201,13 +359,42 @@ def shape_of(v, ctx, fn_scope, calls_seen):
     if not recs:
       return ('fn-unknown',)
     first = recs[-1]  # the delivered configurable's own body runs last (its arguments are evaluated first)
-    calls_seen.append([(_S['by_pid'].get(r.pid, r.pid), r.scope) for r in recs])
-    return ('fn-called', _S['by_pid'].get(first.pid, first.pid), first.scope)
+    calls_seen.append([(_pname(r.pid) or r.pid, r.scope) for r in recs])
+    cls = getattr(_prov(_pname(first.pid) or ''), 'original', None)
+    if isinstance(cls, type):
+      # a reference to a class, scoped or not, delivers something that constructs that class
+      ctx.check(isinstance(res, cls) and getattr(res, 'rec', None) is first, 'class-reference-does-not-construct-the-class',
+                'calling the delivered reference to class %s returned %r' % (_pname(first.pid), res))
+    return ('fn-called', _pname(first.pid) or first.pid, first.scope)
   if type(v) in (list, tuple):
     return (type(v).__name__, tuple(shape_of(x, ctx, fn_scope, calls_seen) for x in v))
   if type(v) is dict:
     return ('dict', tuple((shape_of(a, ctx, fn_scope, calls_seen), shape_of(b, ctx, fn_scope, calls_seen)) for a, b in v.items()))
   return ('lit', canon(v))
+
+
+def check_identity(ctx, shape, v):
+  """'@name' without a scope delivers the configurable itself: the very object registration produced (gin.get_configurable(name))."""
+  import gin
+  if shape[0] == 'fn':
+    if not shape[2]:
+      ctx.count('identity_checks')
+      ctx.bucket('identity:unscoped-unevaluated-is-the-configurable')
+      conf = _prov(shape[1]).conf
+      ctx.check(v is conf, 'unevaluated-reference-not-the-configurable', '@%s delivered %r, the configurable is %r' % (shape[1], v, conf))
+      ctx.check(v is gin.get_configurable('c4.' + shape[1]), 'unevaluated-reference-not-the-configurable',
+                "@%s delivered %r, gin.get_configurable('c4.%s') is another object" % (shape[1], v, shape[1]))
+  elif shape[0] in ('list', 'tuple') and type(v) in (list, tuple) and len(v) == len(shape[1]):
+    for sh, x in zip(shape[1], v):
+      check_identity(ctx, sh, x)
+  elif shape[0] == 'dict' and type(v) is dict and len(v) == len(shape[1]):
+    for (ska, skb), (a, b) in zip(shape[1], v.items()):
+      check_identity(ctx, ska, a)
+      check_identity(ctx, skb, b)
+  elif shape[0] == 'prov':
+    _, rec = _rec_of(v)
+    if rec is not None:
+      check_identity(ctx, shape[2], rec.received.get('t'))
 
 
 def model_shape_called(shape, fn_scope, case, fcalls):
@@ -328,24 +515,103 @@ def _register_tgt_a():
     return ('A', gin.current_scope())
 
 
+def _config_text(st, p, pre, trees):
+  lines = []
+  for name, g in st['graph'].items():
+    if g is not None:
+      lines.append('%s.t = %s' % (name, tree_text(g)))
+  for key, g in st['sgraph'].items():
+    lines.append('%s.t = %s' % (key, tree_text(g)))
+  for m, t in st['macros'].items():
+    lines.append('%s = %s' % (m, tree_text(t)))
+  for prm, t in trees.items():
+    lines.append('%s%s.%s = %s' % (pre, p.name, prm, tree_text(t)))
+  lines.append('c1pre/c1cons.x = @leaked2/c1interrupt()')
+  return '\n'.join(lines) + '\n'
+
+
+def _apply_between(ctx, op, st, text):
+  """Something that happens between two consumer calls; `st` (the model's view of the provider graph and macros) follows."""
+  import gin
+  from gin import config as gc
+  ctx.bucket('between:' + op[0])
+  if op[0] == 'finalize':
+    if not gin.config_is_locked():
+      gin.finalize()
+    return
+  with gin.unlock_config():
+    if op[0] == 'rebind-graph':
+      st['graph'][op[1]] = op[2]
+      if op[3] == 'bind_parameter':
+        gin.bind_parameter('%s.t' % op[1], gc.parse_value(tree_text(op[2])))
+      else:
+        gin.parse_config('%s.t = %s\n' % (op[1], tree_text(op[2])))
+    elif op[0] == 'rebind-macro':
+      st['macros'][op[1]] = op[2]
+      gin.parse_config('%s = %s\n' % (op[1], tree_text(op[2])))
+    elif op[0] == 'reparse':
+      gin.parse_config(text())      # the whole configuration as it stands, a second time: nothing changes
+
+
+def _caller_value(ov, prm):
+  import gin
+  return {'list': lambda: ['caller', prm], 'none': lambda: None, 'zero': lambda: 0, 'empty': lambda: [], 'required': lambda: gin.REQUIRED}[ov]()
+
+
+def _call_consumer(p, P, K, ambient, how):
+  """The ways the scope active at the consuming call comes about."""
+  import contextlib
+  import gin
+  with contextlib.ExitStack() as es:
+    if how == 'nested-str':           # config_scope('a') inside config_scope('b'): names accumulate
+      for comp in ambient:
+        es.enter_context(gin.config_scope(comp))
+    elif how == 'slash-str':
+      es.enter_context(gin.config_scope('/'.join(ambient)))   # '' clears
+    elif how == 'inside-other':       # a list *replaces* whatever is active
+      es.enter_context(gin.config_scope('zz/a'))
+      es.enter_context(gin.config_scope(list(ambient)))
+    elif how == 'none-then':          # None clears whatever is active
+      es.enter_context(gin.config_scope('zz/s1'))
+      es.enter_context(gin.config_scope(None))
+      for comp in ambient:
+        es.enter_context(gin.config_scope(comp))
+    elif how == 'get_configurable':   # the scope written in front of the selector is the scope of the call
+      if ambient:
+        es.enter_context(gin.config_scope('zz'))
+      fn = gin.get_configurable('/'.join(list(ambient) + [p.selector]))
+      return fn(*P, **K)
+    else:
+      es.enter_context(gin.config_scope(list(ambient)))
+    return probes.call_probe(p, P, K)
+
+
+def _is_ev(t):
+  f = tree_feats(t)
+  return 'ref:evaluated' in f or 'ref:scoped-evaluated' in f or 'ref:macro' in f
+
+
 def run_case(ctx, case):
   import gin
   if case.get('kind') == 'special':
     return run_special(ctx, case)
   gin.clear_config()
+  try:
+    _run_case(ctx, case)
+  finally:
+    _S['raise_now'] = False
+    if gin.config_is_locked():        # a 'finalize' between calls: leave the configuration unlocked for whoever runs next
+      gin.clear_config()
+
+
+def _run_case(ctx, case):
+  import gin
   spec = case['spec']
   p = probes.build(spec)
-  lines = []
-  for name, g in case['graph'].items():
-    if g is not None:
-      lines.append('%s.t = %s' % (name, tree_text(g)))
-  for m, t in case['macros'].items():
-    lines.append('%s = %s' % (m, tree_text(t)))
+  # the model's view of the provider graph / macros; re-bindings between calls update it
+  st = {'graph': dict(case['graph']), 'sgraph': dict(case.get('sgraph') or {}), 'macros': dict(case['macros'])}
   pre = case['bind_scope'] + '/' if case['bind_scope'] else ''
-  for prm, t in case['trees'].items():
-    lines.append('%s%s.%s = %s' % (pre, p.name, prm, tree_text(t)))
-  lines.append('c1pre/c1cons.x = @leaked2/c1interrupt()')
-  text = '\n'.join(lines) + '\n'
+  text = _config_text(st, p, pre, case['trees'])
   if case.get('parse_scope'):
     # the scope that happens to be open while the config is *parsed* is irrelevant: unscoped references run under the scope of the consuming call
     ctx.bucket('parsed-inside-a-scope')
@@ -369,57 +635,126 @@ def run_case(ctx, case):
   seen_ids = set()
   keep_alive = []
   ctx.fp(tuple(sorted(feats)), tuple(len(c['ambient']) for c in case['calls']), tuple(tuple(sorted(c['over'].items())) for c in case['calls']),
-         spec['shape'], spec['api'], bool(case['bind_scope']))
+         spec['shape'], spec['api'], bool(case['bind_scope']), tuple(sorted(st['sgraph'])),
+         tuple((c.get('how'), (c.get('before') or [None])[0], tuple(sorted((c.get('oval') or {}).items()))) for c in case['calls']))
   ctx.sample({'config': text, 'calls': case['calls']}, cap=3)
 
+  def take_snap(full=True):
+    # config_str() is the expensive part: it is taken whenever something was mutated since the last snapshot (and first / last)
+    return (gin.config_str() if full else None, [canon(gin.query_parameter(k)) for k in keys],
+            canon(gin.get_bindings(p.selector, resolve_references=False)), snap.store_nonempty())
+
+  def same_snap(a, b):
+    return a[1:] == b[1:] and (a[0] is None or b[0] is None or a[0] == b[0])
+
+  raised_before = False
+  dirty = True
   for ci, call in enumerate(case['calls']):
     ambient = call['ambient']
+    if call.get('before') and ci > 0:
+      try:
+        _apply_between(ctx, call['before'], st, lambda: _config_text(st, p, pre, case['trees']))
+      except BaseException as e:  # pylint: disable=broad-except
+        if isinstance(e, (KeyboardInterrupt, SystemExit, Exception)):
+          raise
+        # e.g. a provider run (and interrupted) by finalize(): surface it instead of losing the worker
+        raise RuntimeError('%s between two consumer calls raised %r' % (call['before'][0], e)) from e
+      base_snap = None                # the configuration was changed on purpose: a new baseline
     if call.get('interrupted_scoped_call_before'):
       # a scoped reference / scoped configurable left by a BaseException must not leave its scope behind
       from vf.checks import c01
       ctx.bucket('history:scoped-reference-left-by-BaseException')
       c01.prelude(gin, bind=False)
     ctx.bucket('ambient:depth0' if not ambient else ('ambient:depth2+' if len(ambient) >= 2 else 'ambient:depth1'))
-    snap_before = (gin.config_str(), [canon(gin.query_parameter(k)) for k in keys],
-                   canon(gin.get_bindings(p.selector, resolve_references=False)), snap.store_nonempty())
+    snap_before = take_snap(full=dirty or base_snap is None)
+    dirty = False
     if base_snap is None:
       base_snap = snap_before
     else:
       ctx.count('mutation_snapshots_compared')
-      ctx.check(snap_before == base_snap, 'config-changed-by-consumer-mutation',
+      ctx.check(same_snap(snap_before, base_snap), 'config-changed-by-consumer-mutation',
                 'after the consumer mutated what it received, config_str/query/get_bindings/store differ: %r' % (snap.diff(base_snap[3], snap_before[3]),))
     applies = (not case['bind_scope']) or (ambient[:1] == [case['bind_scope']])
     P, K = [], {}
+    supplied = {}
     exp_calls, exp_shapes = [], {}
+    required_unbound = False
     params = spec['pos'] + (['x0'] if spec['varkw'] else [])
     for prm in params:
       o = call['over'].get(prm)
-      is_ev = 'ref:evaluated' in tree_feats(case['trees'][prm]) or 'ref:scoped-evaluated' in tree_feats(case['trees'][prm]) or 'ref:macro' in tree_feats(case['trees'][prm])
-      if o == 'pos':
-        P.append(['caller', prm])
-        ctx.bucket('override:positional')
+      ov = (call.get('oval') or {}).get(prm, 'list') if o else None
+      is_ev = _is_ev(case['trees'][prm])
+      if o:
+        val = _caller_value(ov, prm)
+        if o == 'pos':
+          P.append(val)
+          ctx.bucket('override:positional')
+        else:
+          K[prm] = val
+          ctx.bucket('override:keyword')
+          if prm == 'x0':
+            ctx.bucket('override:keyword-on-varkw-parameter')
+      if o and ov == 'required':
+        # gin.REQUIRED from the caller means "Gin supplies this parameter": the reference IS evaluated, once
+        if applies:
+          exp_shapes[prm] = model_eval(case['trees'][prm], ambient, st, exp_calls)
+          if is_ev:
+            ctx.bucket('override:REQUIRED-%s-on-evaluated-ref' % ('positional' if o == 'pos' else 'keyword'))
+        else:
+          required_unbound = True     # nothing bound under this scope: an error of some kind, not this property's business
+      elif o:
+        supplied[prm] = val
         if is_ev and applies:
-          ctx.bucket('override:positional-on-evaluated-ref')
-      elif o == 'kw':
-        K[prm] = ['caller', prm]
-        ctx.bucket('override:keyword')
-        if prm == 'x0':
-          ctx.bucket('override:keyword-on-varkw-parameter')
-        if is_ev and applies:
-          ctx.bucket('override:keyword-on-evaluated-ref')
+          ctx.bucket('override:%s-on-evaluated-ref' % ('positional' if o == 'pos' else 'keyword'))
+          if ov == 'none':
+            ctx.bucket('override:None-on-evaluated-ref')
+          elif ov in ('zero', 'empty'):
+            ctx.bucket('override:falsy-on-evaluated-ref')
       else:
         ctx.bucket('override:none')
         if applies:
-          exp_shapes[prm] = model_eval(case['trees'][prm], ambient, case, exp_calls)
+          exp_shapes[prm] = model_eval(case['trees'][prm], ambient, st, exp_calls)
+    how = call.get('how') or 'list'
+    if how != 'list':
+      ctx.bucket('ambient-how:' + how)
+    will_raise = bool(call.get('raise')) and any(c[0] == 'raiser' for c in exp_calls)
     mark = probes.RECORDER.mark()
     exc = None
+    _S['raise_now'] = bool(call.get('raise'))
     try:
-      with gin.config_scope(list(ambient)):
-        probes.call_probe(p, P, K)
-    except TypeError as e:
+      _call_consumer(p, P, K, ambient, how)
+    except Exception as e:  # pylint: disable=broad-except
       exc = e
+    finally:
+      _S['raise_now'] = False
     recs = probes.RECORDER.since(mark)
     ctx.count('consumer_calls')
+    ctx.check(gin.current_scope() == [], 'scope-left-behind-after-consumer-call', 'after the consumer call (%r) the active scope is %r' % (exc, gin.current_scope()))
+    if required_unbound:
+      continue
+    prov_recs = [r for r in recs if _pname(r.pid)]
+    cons = [r for r in recs if r.pid == p.pid]
+    got_calls = sorted((_pname(r.pid), r.scope) for r in prov_recs)
+    if will_raise:
+      # an evaluated reference raised an ordinary exception somewhere inside the value: there is no result to deliver, so the consumer cannot have
+      # run; references evaluated before it ran as the model says (a sub-multiset); the calls that follow behave as if nothing had happened
+      if 'ref:evaluated-raiser' in tree_feats(case['trees'].get('p0', ['lit', 0])) and case['trees']['p0'][0] == 'list':
+        ctx.bucket('history:evaluated-reference-raised-mid-container')
+      raised_before = True
+      ctx.check(exc is not None and not cons, 'consumer-ran-although-evaluated-reference-raised',
+                'call %d: a provider raised while its reference was evaluated, yet the consumer ran (%d times, exception %r)' % (ci, len(cons), exc))
+      rest = list(exp_calls)
+      extra = []
+      for c in got_calls:
+        if c in rest:
+          rest.remove(c)
+        else:
+          extra.append(c)
+      ctx.check(not extra and any(c[0] == 'raiser' for c in got_calls), 'provider-calls-differ',
+                'call %d under %r (a reference raises): providers ran as %r, not a part of the model\'s %r' % (ci, ambient, got_calls, sorted(exp_calls)))
+      continue
+    if raised_before:
+      ctx.bucket('history:call-after-raising-reference')
     missing = [prm for prm in spec['pos'] if prm not in exp_shapes and call['over'].get(prm) is None]
     if 'x0' in params and 'x0' not in exp_shapes and call['over'].get('x0') is None:
       pass  # an unbound, unsupplied **kwargs name is simply absent
@@ -429,40 +764,28 @@ def run_case(ctx, case):
       continue
     if not ctx.check(exc is None, 'unexpected-exception', 'consumer call raised %r' % (exc,)):
       continue
-    prov_recs = [r for r in recs if r.pid in _S['by_pid']]
-    cons = [r for r in recs if r.pid == p.pid]
-    got_calls = sorted((_S['by_pid'][r.pid], r.scope) for r in prov_recs)
     ctx.count('provider_call_multisets_compared')
     key = 'provider-calls-differ'
     if sorted(exp_calls) != got_calls:
       over_kw = [prm for prm, o in call['over'].items() if o == 'kw']
-      extra = list(got_calls)
-      for c in exp_calls:
-        if c in extra:
-          extra.remove(c)
       if over_kw and len(got_calls) > len(exp_calls) and all(c in got_calls for c in exp_calls):
         key = 'reference-evaluated-for-caller-keyword-argument'
     ctx.check(sorted(exp_calls) == got_calls, key,
-              'call %d under %r (overrides %r): providers ran as %r, model %r' % (ci, ambient, call['over'], got_calls, sorted(exp_calls)))
+              'call %d under %r via %s (overrides %r %r): providers ran as %r, model %r' % (ci, ambient, how, call['over'], call.get('oval'), got_calls, sorted(exp_calls)))
+    if any(('/'.join(c[1][:i]) + '/' + c[0]) in st['sgraph'] for c in exp_calls for i in range(1, len(c[1]) + 1)):
+      ctx.bucket('graph:scoped-provider-binding-used')
     if not ctx.check(len(cons) == 1, 'consumer-run-count', 'consumer ran %d times' % len(cons)):
       continue
     received = dict(cons[0].received)
     if spec['varkw']:
       received.update(received.get('**') or {})
-    _S['last_recs'] = {}
-    # map provider return objects to their records (returned lists are ["ret", pid, n]); identify via (pid, n)
-    by_pn = {}
-    for r in prov_recs:
-      by_pn.setdefault(r.pid, []).append(r)
+
     def index(v):
-      if isinstance(v, list) and len(v) == 3 and v[0] == 'ret' and v[1] in by_pn:
-        same = [r for r in by_pn[v[1]]]
-        # n-th call of this provider in the worker == v[2]; records keep order, so match by counting from the end
-        _S['last_recs'][id(v)] = _match(v, same)
+      name, rec = _rec_of(v)
+      if name:
         keep_alive.append(v)
         ctx.check(id(v) not in seen_ids, 'evaluated-reference-result-not-fresh', 'an evaluated reference delivered an object seen in an earlier call')
         seen_ids.add(id(v))
-        rec = _S['last_recs'][id(v)]
         if rec is not None:
           index(rec.received.get('t'))
       elif type(v) in (list, tuple):
@@ -474,40 +797,88 @@ def run_case(ctx, case):
           index(b)
     present = [prm for prm in params if prm in received]
     for prm in present:
-      index(received[prm])
+      if prm in exp_shapes:
+        index(received[prm])
     for prm in present:
       if prm in exp_shapes:
         fcalls_m, fcalls_g = [], []
-        want = model_shape_called(exp_shapes[prm], call['fn_scope'], case, fcalls_m)
+        want = model_shape_called(exp_shapes[prm], call['fn_scope'], st, fcalls_m)
         got = shape_of(received[prm], ctx, call['fn_scope'], fcalls_g)
         ctx.check(got == want, 'delivered-value-differs', 'call %d under %r: %s delivered %r, model %r' % (ci, ambient, prm, got, want))
         ctx.check(sorted(map(sorted, fcalls_m)) == sorted(map(sorted, fcalls_g)), 'delivered-configurable-runs-differ',
                   'calling delivered configurables under %r ran %r, model %r' % (call['fn_scope'], fcalls_g, fcalls_m))
+        if got == want:
+          check_identity(ctx, exp_shapes[prm], received[prm])
       else:
-        ctx.check(received[prm] == ['caller', prm] and (received[prm] is (P + list(K.values()))[[x[1] for x in P + list(K.values())].index(prm)]),
-                  'caller-value-replaced', 'caller value for %s replaced by %r' % (prm, received[prm]))
+        ctx.check(prm in supplied and received[prm] is supplied[prm] and received[prm] == _caller_value(call.get('oval', {}).get(prm, 'list'), prm),
+                  'caller-value-replaced', 'caller value %r for %s replaced by %r' % (supplied.get(prm), prm, received[prm]))
     if call['mutate']:
+      op0 = gin.operative_config_str() if call.get('opsnap') else None
       n = sum(mutate(received[prm]) for prm in present)
       if n:
         ctx.bucket('mutation:applied')
-  snap_after = (gin.config_str(), [canon(gin.query_parameter(k)) for k in keys],
-                canon(gin.get_bindings(p.selector, resolve_references=False)), snap.store_nonempty())
+        dirty = True
+        if op0 is not None:
+          # "config strings" are both config_str() (compared before the next call) and operative_config_str()
+          ctx.bucket('snapshot:operative-config-around-mutation')
+          ctx.count('operative_snapshots_compared')
+          op1 = gin.operative_config_str()
+          ctx.check(op0 == op1, 'operative-config-changed-by-consumer-mutation',
+                    'operative_config_str() before / after the consumer mutated what it received:\n%s\n---\n%s' % (op0, op1))
+    if call.get('gb'):
+      # a query that resolves references: under the caller's scope it sees what the consumer would be given there
+      gb_calls, gb_shapes = [], {}
+      if applies:
+        for prm, t in case['trees'].items():
+          gb_shapes[prm] = model_eval(t, ambient, st, gb_calls)
+      mark = probes.RECORDER.mark()
+      gb = {}
+      try:
+        with gin.config_scope(list(ambient)):
+          gb = gin.get_bindings(p.selector)
+      except Exception as e:  # pylint: disable=broad-except
+        ctx.check(False, 'get-bindings-resolved-differs', 'get_bindings(%r) under %r raised %r although the consumer call just succeeded there' % (p.selector, ambient, e))
+        continue
+      grecs = sorted((_pname(r.pid), r.scope) for r in probes.RECORDER.since(mark) if _pname(r.pid))
+      ctx.bucket('query:get_bindings-resolved')
+      ctx.count('get_bindings_resolved_compared')
+      ctx.check(sorted(gb) == sorted(gb_shapes) and grecs == sorted(gb_calls), 'get-bindings-resolved-differs',
+                'get_bindings(%r) under %r: parameters %r, providers ran as %r; model %r, %r' % (p.selector, ambient, sorted(gb), grecs, sorted(gb_shapes), sorted(gb_calls)))
+      for prm in gb_shapes:
+        if prm in gb:
+          fm, fg = [], []
+          want = model_shape_called(gb_shapes[prm], call['fn_scope'], st, fm)
+          got = shape_of(gb[prm], ctx, call['fn_scope'], fg)
+          ctx.check(got == want, 'get-bindings-resolved-differs', 'get_bindings(%r) under %r: %s is %r, model %r' % (p.selector, ambient, prm, got, want))
+  snap_after = take_snap()
   ctx.count('mutation_snapshots_compared')
-  ctx.check(snap_after == base_snap, 'config-changed-by-consumer-mutation',
+  ctx.check(same_snap(snap_after, base_snap), 'config-changed-by-consumer-mutation',
             'after the last call config_str/query/get_bindings/store differ from before the first: %r' % (snap.diff(base_snap[3], snap_after[3]),))
 
 
 def _match(v, recs):
   # provider probes number their results from a per-probe counter starting at 0 in call order
   n = v[2]
-  allrecs = [r for r in probes.RECORDER.log if r.pid == v[1]]
+  log = probes.RECORDER.log
+  idx = _S.setdefault('pid_index', {})
+  upto = _S.get('pid_index_upto', 0)
+  if upto > len(log) or _S.get('pid_index_log') is not log or (upto and log[upto - 1] is not _S.get('pid_index_last')):   # the log was cleared: start over
+    idx.clear()
+    upto = 0
+    _S['pid_index_log'] = log
+  for r in log[upto:]:
+    idx.setdefault(r.pid, []).append(r)
+  _S['pid_index_upto'] = len(log)
+  _S['pid_index_last'] = log[-1] if log else None
+  allrecs = idx.get(v[1], ())
   return allrecs[n] if n < len(allrecs) else None
 
 
 LEVEL_TEXT = ('Runtime monitor with a reference model of reference evaluation: for every consumer call the exact multiset of (provider, observed '
               'scope) runs, the delivered structure (delivered configurables are called to see what and where they run), freshness of evaluated '
               'results and non-replacement of caller values are compared with a model walk of the bound value trees; config_str, query_parameter, '
-              'get_bindings and the store are snapshotted around consumer mutations.')
+              'get_bindings and the store are snapshotted around consumer mutations; operative_config_str() is compared immediately before / after the mutation; '
+              'get_bindings(resolve_references=True) is compared with the same model; unscoped unevaluated references are compared by identity with the registered configurable.')
 LEVEL_NOTE = 'Trusted: the model walk (~40 lines). get_bindings(resolve_references=False)/query_parameter returning stored objects is by design (DESIGN X).'
 TECHNIQUE = 'runtime reference-model monitor with call-counting provider probes over generated reference trees, scopes and mutation histories'
 DESIGN_REF = 'DESIGN.md section 4, C04'
